@@ -22,7 +22,10 @@ def main():
     for key, rec in sorted(TABLE.items()):
         ID, n = key.split('-')
         src = '/tmp/seed-%s-out' % ID
-        if int(n) >= 5:  # third round: seeded/<ID>-5 and -6 come from /tmp/seed3-<ID>-out/{patch,demo,notes}{1,2}
+        if int(n) >= 7:  # fourth round: seeded/<ID>-7 and -8 come from /tmp/seed4-<ID>-out/{patch,demo,notes}{1,2}
+            src = '/tmp/seed4-%s-out' % ID
+            n = str(int(n) - 6)
+        elif int(n) >= 5:  # third round: seeded/<ID>-5 and -6 come from /tmp/seed3-<ID>-out/{patch,demo,notes}{1,2}
             src = '/tmp/seed3-%s-out' % ID
             n = str(int(n) - 4)
         elif int(n) >= 3:  # second round: seeded/<ID>-3 and -4 come from /tmp/seed2-<ID>-out/{patch,demo,notes}{1,2}
